@@ -585,13 +585,21 @@ func lockOp(in ssa.Instruction) (path string, acquire, release bool) {
 		return "", false, false
 	}
 	switch CalleeFullName(c) {
-	case "(*sync.Mutex).Lock", "(*sync.RWMutex).Lock", "(*sync.RWMutex).RLock":
+	case "(*sync.Mutex).Lock", "(*sync.RWMutex).Lock":
 		return Path(Recv(c)), true, false
-	case "(*sync.Mutex).Unlock", "(*sync.RWMutex).Unlock", "(*sync.RWMutex).RUnlock":
+	case "(*sync.Mutex).Unlock", "(*sync.RWMutex).Unlock":
 		return Path(Recv(c)), false, true
+	case "(*sync.RWMutex).RLock":
+		// a shared (read) acquisition is tracked under its own name: it does not permit writes
+		return Path(Recv(c)) + ReadLockSuffix, true, false
+	case "(*sync.RWMutex).RUnlock":
+		return Path(Recv(c)) + ReadLockSuffix, false, true
 	}
 	return "", false, false
 }
+
+// ReadLockSuffix marks the lockset entry of a shared (RLock) acquisition.
+const ReadLockSuffix = "#shared"
 
 // LockOp is the exported form of lockOp.
 func LockOp(in ssa.Instruction) (path string, acquire, release bool) { return lockOp(in) }
